@@ -146,8 +146,11 @@ pub fn run(args: &[String]) -> i32 {
     let seed = arg_u64(args, "--seed", 1);
     let runs = arg_u64(args, "--runs", 40) as usize;
     let mut o = Out::create(arg(args, "--out").expect("--out"));
-    let mut rng = StdRng::seed_from_u64(seed ^ 0xc08_f);
-    for k in 0..runs {
+    // (a fixture of the live-configuration runs leaves threads behind: the driver runs this in chunks, `--offset`
+    // being the index of the chunk's first run)
+    let offset = arg_u64(args, "--offset", 0) as usize;
+    let mut rng = StdRng::seed_from_u64(seed ^ 0xc08_f ^ (offset as u64).wrapping_mul(0x9e37_79b9));
+    for k in offset..offset + runs {
         match one_run(&mut rng, k) {
             Ok(evs) => {
                 for e in evs {
